@@ -290,6 +290,12 @@ pub fn run(args: &[String]) -> i32 {
             ("no_pointer_slice-true", Lang::Go, "[go]\npackage = \"p\"\nno_pointer_slice = true\n[go.type_mappings]\nDateTime = \"string\"\n".into(), Box::new(|t: &str| t.contains("Items []uint32 "))),
             ("no_pointer_slice-false", Lang::Go, "[go]\npackage = \"p\"\nno_pointer_slice = false\n[go.type_mappings]\nDateTime = \"string\"\n".into(), Box::new(|t: &str| t.contains("Items *[]uint32 "))),
             ("no_pointer_slice-absent", Lang::Go, "[go]\npackage = \"p\"\n[go.type_mappings]\nDateTime = \"string\"\n".into(), Box::new(|t: &str| t.contains("Items *[]uint32 "))),
+            // a mapping keyed by the base of a generic type replaces the whole expression, arguments included (the extra
+            // source file of these cases uses Stamped<OffsetDateTime> and Stamped<()>)
+            ("generic-base-kotlin", Lang::Kotlin, "[kotlin]\npackage = \"p.q\"\n[kotlin.type_mappings]\nDateTime = \"String\"\nStamped = \"String\"\n".into(), Box::new(|t: &str| t.contains("val stamp: String") && t.contains("val blank: String"))),
+            ("generic-base-swift", Lang::Swift, "[swift.type_mappings]\nDateTime = \"Date\"\nStamped = \"String\"\n".into(), Box::new(|t: &str| t.contains("let stamp: String") && t.contains("let blank: String"))),
+            ("generic-base-go", Lang::Go, "[go]\npackage = \"p\"\n[go.type_mappings]\nDateTime = \"string\"\nStamped = \"string\"\n".into(), Box::new(|t: &str| t.contains("Stamp string") && t.contains("Blank string") && !t.contains("\"time\""))),
+            ("generic-base-scala", Lang::Scala, "[scala]\npackage = \"a.b\"\n[scala.type_mappings]\nDateTime = \"String\"\nStamped = \"String\"\n".into(), Box::new(|t: &str| t.contains("stamp: String") && t.contains("blank: String"))),
             ("scala-mappings", Lang::Scala, "[scala]\npackage = \"a.b\"\n[scala.type_mappings]\nDateTime = \"java.time.Instant\"\n".into(), Box::new(|t: &str| t.contains("when: java.time.Instant"))),
         ];
         for (name, lang, toml, pred) in &table_cases {
@@ -297,6 +303,9 @@ pub fn run(args: &[String]) -> i32 {
             for via in ["-c", "cwd"] {
                 let sc = Scratch::new("c20t");
                 sc.write("ws/app/src/lib.rs", SRC.as_bytes());
+                if name.starts_with("generic-base") {
+                    sc.write("ws/app/src/receipts.rs", b"#[typeshare]\npub struct Receipt { pub stamp: Stamped<OffsetDateTime>, pub blank: Stamped<()> }\n");
+                }
                 let (extra, cwd) = if via == "-c" {
                     sc.write("elsewhere/custom.toml", toml.as_bytes());
                     (vec![s("-c"), sc.path("elsewhere/custom.toml").to_string_lossy().into_owned()], "")
